@@ -39,7 +39,7 @@ fn same(a: &[u8; 2], la: usize, b: &[u8; 2], lb: usize) -> bool {
 
 fn any_word<const L: usize>() -> [u8; 2] {
     let b: [u8; 2] = kani::any();
-    kani::assume(b[0] == b'a' || b[0] == b'b');
+    kani::assume(b[0] == b'a' || b[0] == b'b' || b[0] == b'c');
     kani::assume(b[1] == b'a' || b[1] == b'b');
     b
 }
@@ -62,9 +62,12 @@ fn interner_three<H: Hasher + Default, const L1: usize, const L2: usize, const L
     assert!(r1.len() == l1 && (l1 < 1 || r1[0] == s1[0]) && (l1 < 2 || r1[1] == s1[1]), "resolve(k1) = s1");
     let r3 = it.resolve(k3).unwrap().as_bytes();
     assert!(r3.len() == l3 && (l3 < 1 || r3[0] == s3[0]) && (l3 < 2 || r3[1] == s3[1]), "resolve(k3) = s3");
-    assert!(it.get(as_str(&s2, l2)) == Some(k2), "get finds an interned string");
+    assert!(it.get(as_str(&s2, l2)) == Some(k2), "get finds the second string");
+    assert!(it.get(as_str(&s1, l1)) == Some(k1), "get still finds the first string after two more were interned");
+    assert!(it.get(as_str(&s3, l3)) == Some(k3), "get finds the third string");
     kani::cover!(k1 != k2, "distinct strings");
     kani::cover!(k1 == k3 || k2 == k3 || k1 == k2, "a repeated string");
+    kani::cover!(k1 != k2 && k2 != k3 && k1 != k3, "three distinct colliding strings");
     std::mem::forget(it);
 }
 
@@ -101,4 +104,10 @@ fn c20_interner_two_collide_22() {
 #[kani::unwind(8)]
 fn c20_interner_two_collide_12() {
     interner_two::<ConstHasher, 1, 2>();
+}
+
+#[kani::proof]
+#[kani::unwind(8)]
+fn c20_interner_all_collide_111() {
+    interner_three::<ConstHasher, 1, 1, 1>();
 }
